@@ -561,6 +561,22 @@ fn run_batch(batch: &str, o: &Opts) {
     });
 }
 
+/// a CPU this process may run on, if `taskset` can actually pin a child to it (probed with `true`)
+fn pin_cpu() -> Option<u32> {
+    if !std::path::Path::new("/usr/bin/taskset").exists() {
+        return None;
+    }
+    let status = std::fs::read_to_string("/proc/self/status").ok()?;
+    let list = status.lines().find_map(|l| l.strip_prefix("Cpus_allowed_list:"))?.trim().to_string();
+    let first: u32 = list.split(|c| c == ',' || c == '-').next()?.trim().parse().ok()?;
+    let ok = Command::new("/usr/bin/taskset").args(["-c", &first.to_string(), "true"]).stdout(Stdio::null()).stderr(Stdio::null()).status().map(|s| s.success()).unwrap_or(false);
+    if ok {
+        Some(first)
+    } else {
+        None
+    }
+}
+
 pub fn gen_c13(sh: &mut Shards, o: &Opts, only: Option<&str>) -> serde_json::Value {
     let exe = std::env::current_exe().expect("exe");
     let mut calls = 0u64;
@@ -574,12 +590,15 @@ pub fn gen_c13(sh: &mut Shards, o: &Opts, only: Option<&str>) -> serde_json::Val
         idx += par;
         let mut kids = Vec::new();
         for b in group {
-            let mut cmd = if b.starts_with("cpu1+") && std::path::Path::new("/usr/bin/taskset").exists() {
-                let mut c = Command::new("/usr/bin/taskset");
-                c.args(["-c", "0"]).arg(&exe);
-                c
-            } else {
-                Command::new(&exe)
+            let mut cmd = match (b.starts_with("cpu1+"), pin_cpu()) {
+                (true, Some(cpu)) => {
+                    let mut c = Command::new("/usr/bin/taskset");
+                    c.args(["-c", &cpu.to_string()]).arg(&exe);
+                    c
+                }
+                // no way to pin on this host (no taskset, or it refuses): the batch runs unpinned rather than failing for a
+                // reason that has nothing to do with the code under test
+                _ => Command::new(&exe),
             };
             let child = cmd
                 .args(["c13worker", b, "--tier", if o.thorough { "thorough" } else { "quick" }, "--seed", &o.seed.to_string()])
